@@ -11,7 +11,7 @@ ID = 'C02'
 PROPS_FILE = 'theories/Props/C02.v'
 PROPS_MODULE = 'Props.C02'
 COQ_TARGETS = ['theories/Extract/ExtractSyntax.vo']
-REQUIRED_THEOREMS = ['C02_roundtrip_simple_partial', 'C02_simple_is_wellformed', 'C02_layout_independent_simple_partial', 'C02_roundtrip_statement_refuted_by_D7', 'C02_roundtrip_multiline_partial', 'C02_multiline_is_wellformed', 'C02_layout_independent_multiline_partial', 'C02_simple_in_multiline', 'C02_roundtrip_select_partial', 'C02_select_is_wellformed', 'C02_layout_independent_select_partial', 'C02_select_depth_monotone', 'C02_roundtrip_wellformed_partial', 'C02_layout_independent_wellformed_partial', 'C02_roundtrip_nested_partial', 'C02_nested_is_wellformed', 'C02_wellformed_in_nested']
+REQUIRED_THEOREMS = ['C02_roundtrip_simple_partial', 'C02_simple_is_wellformed', 'C02_layout_independent_simple_partial', 'C02_roundtrip_statement_refuted_by_D7', 'C02_roundtrip_multiline_partial', 'C02_multiline_is_wellformed', 'C02_layout_independent_multiline_partial', 'C02_simple_in_multiline', 'C02_roundtrip_select_partial', 'C02_select_is_wellformed', 'C02_layout_independent_select_partial', 'C02_select_depth_monotone', 'C02_roundtrip_wellformed_partial', 'C02_layout_independent_wellformed_partial', 'C02_roundtrip_nested_partial', 'C02_nested_is_wellformed', 'C02_wellformed_in_nested', 'C02_D7_parse', 'C02_wellformed_refuted_exactly', 'C02_D7_excluded', 'C02_rendered_source_is_utf8']
 MODEL = 'syn'
 HARNESS_BINS = ['syn_run']
 ANCHORS = ['fluent-syntax/src/parser/core.rs', 'fluent-syntax/src/parser/pattern.rs', 'fluent-syntax/src/parser/expression.rs',
@@ -469,7 +469,9 @@ PARTIAL = ('the round trip parse (render cs t) = t is PROVED for ALL well-formed
            'premise (last_comment_ok): if the LAST entry of the tree is a stand-alone comment, its last line is not empty. That premise is exactly '
            'the tree shape of the known finding D7 (a comment whose last line is empty, at the end of input without a final line end, parses to a '
            'comment with one line fewer); comments ending in empty or whitespace-only lines anywhere else are covered. The unrestricted statement '
-           'is refuted on the current tree by D7 (theorem C02_roundtrip_statement_refuted_by_D7). Adequacy of Render.v w.r.t. the Fluent EBNF is trusted.')
+           'is refuted on the current tree by D7: C02_wellformed_refuted_exactly shows the round trip FAILS for every well-formed tree whose last entry '
+           'is a comment of >= 2 lines with an empty last line (C02_D7_parse gives the tree the parser returns instead); the one-line case is '
+           'C02_roundtrip_statement_refuted_by_D7. C02_rendered_source_is_utf8: every rendered source is valid UTF-8, so C01 applies to it. Adequacy of Render.v w.r.t. the Fluent EBNF is trusted.')
 
 MANIFEST = {
     'text': 'The Fluent grammar is formalised as a printer with layout choices (Render.v: render, wf_resource); the property is the '
